@@ -71,6 +71,7 @@ class RefPeer:
             'prefer': k.get('prefer', r.choice(['mine', 'mine', 'reversed'])),       # preference order among the common transforms
             'latency': k.get('latency', r.choice([0.005, 0.02, 0.1])),
             'byz_foreign_first': bool(k.get('byz_foreign_first', False)),
+            'init_proposal_spi': k.get('init_proposal_spi', r.choice(['empty', 'empty', 'echo'])),
             'mute_after_init': bool(k.get('mute_after_init', False)),     # answers IKE_SA_INIT and nothing else (a peer that dies right then)
         }
         self.secret = bytes(r.getrandbits(8) for _ in range(16))
@@ -215,6 +216,11 @@ class RefPeer:
         s = self.sessions.get(h['spi_r'])
         if s is None or s.spi_i != h['spi_i']:
             self._c('unknown_spi')
+            if h['exch'] == R.IKE_AUTH and h['id'] == 1 and any(x.spi_i == h['spi_i'] and not x.authenticated for x in self.sessions.values()):
+                # the initiator answers our IKE_SA_INIT response with an IKE_AUTH addressed to a responder SPI that response did not carry in
+                # its header: SPIr, which goes into the key derivation (RFC 7296 2.14), is not the one of the exchange
+                self.problem('ike_auth_to_spi_of_no_sa_response', f'IKE_AUTH request of SPIi {h["spi_i"].hex()} addressed to SPIr {h["spi_r"].hex()}; the '
+                             f'IKE_SA_INIT response it follows carried SPIr {[x.spi_r.hex() for x in self.sessions.values() if x.spi_i == h["spi_i"]]} in its header')
             return
         if not h['I']:
             return self.problem('initiator_flag_clear', f'request of the original initiator of IKE_SA {s.spi_i.hex()} without the Initiator flag (exchange {h["exch"]}, id {h["id"]})')
@@ -333,7 +339,12 @@ class RefPeer:
         s.keys = R.ike_keys(suite, s.ni, s.nr, s.spi_i, s.spi_r, shared)
         s.init_req = data
         s.foreign = foreign is not None
-        chosen = {'num': prop['num'], 'proto': R.PROTO_IKE, 'spi': b'', 'transforms': [dict(t) for t in pick]}
+        # SPI field of the proposal in an IKE_SA_INIT response: empty (RFC 7296 3.3.1: the SPI is in the header), or - some responders copy the
+        # chosen proposal as it came - the initiator's own value echoed back; the SPIr that counts is the one in the header
+        echo = prop.get('spi', b'') if self.k['init_proposal_spi'] == 'echo' else b''
+        if echo:
+            self._c('init_proposal_spi_echoed')
+        chosen = {'num': prop['num'], 'proto': R.PROTO_IKE, 'spi': echo, 'transforms': [dict(t) for t in pick]}
         payloads = [{'type': R.P_SA, 'proposals': [chosen]}, {'type': R.P_KE, 'group': suite.dh, 'data': R.dh_public(suite.dh, x)},
                     {'type': R.P_NONCE, 'data': s.nr}] + self._extras()
         s.init_res = reply(payloads, s.spi_r)
